@@ -57,11 +57,11 @@ known = [
  {"property": "C11", "match": r"^bounded:nsi_cross_average_path_length/(definition|arg-symmetry)$", "what": "nsi_cross_average_path_length sums the node weights of list 1 for both factors (W_P*W_P instead of W_P*W_Q): ([0,5],[1,2,4]) -> 3.3306 but ([1,2,4],[0,5]) -> 1.5742 on the undirected test network; the suite pins 3.3306, so it cannot be repaired"},
  {"property": "C03", "match": r"^bounded:closeness/directed-out-distance$", "what": "closeness() on directed networks calls igraph with mode=ALL: directed 3-cycle gives [1,1,1] instead of 2/3 (and disagrees with closeness(link_attribute) at unit lengths)"},
  {"property": "C03", "match": r"^bounded:link_betweenness/directed-link-covered$", "what": "link_betweenness on directed networks assumes igraph's undirected edge order: directed 8-cycle, link 7->0 gets 0"},
- {"property": "C02", "match": r"^bounded:(nsi_cross_average_path_length|nsi_cross_closeness_centrality|nsi_internal_closeness_centrality(\\[l[12]\\])?)/split-unreachable-pairs$", "what": "n.s.i. cross/internal closeness and cross average path length replace unreachable pairs by N-1, which changes under a split: A=[[0,1,0],[1,0,0],[0,0,0]], lists [0,1],[2], split node 2: cross closeness [0.5,0.5] -> [0.333,0.333]"},
- {"property": "C02", "match": r"^bounded:nsi_newman_betweenness\\[add_local_ends\\]/split-singleton-component$", "what": "nsi_newman_betweenness(add_local_ends=True) hard-codes 0 for one-node components: two isolated nodes w=[3,0.5], splitting node 0 gives [0,0] -> [9,0,9]"},
- {"property": "C04", "match": r"^bounded:(Network|GeoNetwork|SpatialNetwork|RecurrenceNetwork|InteractingNetworks|ResNetwork)\\.(link_betweenness|edge_betweenness)/relabel-directed$", "what": "link_betweenness on directed networks writes igraph's directed edge values back through an i<j enumeration: [[0,1],[0,0]] gives [[0,1],[1,0]] but [[0,0],[1,0]] gives zeros"},
- {"property": "C04", "match": r"^bounded:(Network|GeoNetwork|SpatialNetwork|RecurrenceNetwork|InteractingNetworks|ResNetwork)\\.(transitivity|higher_order_transitivity\\[3\\]|transitivity_dim_single_scale.*)/relabel-directed$", "what": "transitivity on directed networks depends on the numbering: [[0,1,1],[1,0,1],[0,0,0]] gives 0.857, the same graph numbered [[0,1,1],[0,0,0],[1,1,0]] gives 0.4286"},
- {"property": "C04", "match": r"^bounded:GeoNetwork\\.(in|out)?area_weighted_connectivity(_cumulative)?_distribution/relabel-binning$", "what": "geographical_distribution puts the maximal element into bin n_bins-1 or n_bins-2 depending on float32 rounding of the order of summation"},
+ {"property": "C02", "match": r"^bounded:(nsi_cross_average_path_length|nsi_cross_closeness_centrality|nsi_internal_closeness_centrality(\[l[12]\])?)/split-unreachable-pairs$", "what": "n.s.i. cross/internal closeness and cross average path length replace unreachable pairs by N-1, which changes under a split: A=[[0,1,0],[1,0,0],[0,0,0]], lists [0,1],[2], split node 2: cross closeness [0.5,0.5] -> [0.333,0.333]"},
+ {"property": "C02", "match": r"^bounded:nsi_newman_betweenness\[add_local_ends\]/split-singleton-component$", "what": "nsi_newman_betweenness(add_local_ends=True) hard-codes 0 for one-node components: two isolated nodes w=[3,0.5], splitting node 0 gives [0,0] -> [9,0,9]"},
+ {"property": "C04", "match": r"^bounded:(Network|GeoNetwork|SpatialNetwork|RecurrenceNetwork|InteractingNetworks|ResNetwork)\.(link_betweenness|edge_betweenness)/relabel-directed$", "what": "link_betweenness on directed networks writes igraph's directed edge values back through an i<j enumeration: [[0,1],[0,0]] gives [[0,1],[1,0]] but [[0,0],[1,0]] gives zeros"},
+ {"property": "C04", "match": r"^bounded:(Network|GeoNetwork|SpatialNetwork|RecurrenceNetwork|InteractingNetworks|ResNetwork)\.(transitivity|higher_order_transitivity\[3\]|transitivity_dim_single_scale.*)/relabel-directed$", "what": "transitivity on directed networks depends on the numbering: [[0,1,1],[1,0,1],[0,0,0]] gives 0.857, the same graph numbered [[0,1,1],[0,0,0],[1,1,0]] gives 0.4286"},
+ {"property": "C04", "match": r"^bounded:GeoNetwork\.(in|out)?area_weighted_connectivity(_cumulative)?_distribution/relabel-binning$", "what": "geographical_distribution puts the maximal element into bin n_bins-1 or n_bins-2 depending on float32 rounding of the order of summation"},
  {"property": "C05", "match": r"^bounded:(SpatialNetwork\.|GeoNetwork\.)?save_load\[gml\]/node_weights$", "what": "igraph's GML writer strips '_' from attribute names: node_weight_nsi is written as nodeweightnsi and Load returns unit (or cos-lat) weights"},
  {"property": "C05", "match": r"^bounded:adjacency_setter/known29-N-change-node-weights$", "what": "adjacency.setter can change N while node_weights keep their old length (finding #29)"},
  {"property": "C07", "match": r"^bounded:RecurrenceNetwork/missing/(rqa-size-consistent-with-R|setter/adjacency-is-R-without-diagonal)$", "what": "RecurrenceNetwork(missing_values=True) with a NaN state: self.N becomes the order of the reduced network while R keeps its full order (recurrence_rate() 0.625 instead of 0.4; first set_* call uses the wrong diagonal stride)"},
